@@ -13,6 +13,19 @@ E2 = "explicit-state search over operation histories of the real objects against
 E3 = "bounded-exhaustive input/configuration enumeration against a reference model (depth-1 model checking)"
 
 CHECKS = {
+    "C13": dict(
+        engine="E2-hist",
+        category="exploration",
+        technique="exhaustive single-edit neighbourhoods of recorded histories replayed on the real Gateway (bounded history enumeration with invariants evaluated on reached states)",
+        text="The repo's system, schema, eavesdrop, device and fault-log logs (quick: those of <= 200 lines; thorough: all), eavesdropping off and on, are "
+        "fed packet by packet to a real Gateway on the virtual loop: unedited with every view after every packet and get_state+restore at every 5th / "
+        "every prefix, and EVERY single edit (delete, duplicate, swap neighbours, splice 40 lines of a device-disjoint system at every position, every "
+        "extreme-value field mutation inside the schema regex at every line). Views must not raise; after get_state/restore - successful or not - the "
+        "engine must be running, a received packet handled and a sent command written; a spliced neighbour must not change the known system's state.",
+        design_ref="4/C13",
+        note="Views are evaluated around the edit, every 25th packet and at the end (states before the edit are the unedited log's, covered in full); splice "
+        "positions that separate two fragments of one array broadcast are exempt from the differential (the library merges fragments only when consecutive).",
+    ),
     "C11": dict(
         engine="E1-sched (operation sequences)",
         category="model_checking",
